@@ -44,6 +44,7 @@ def plan(tier, seed):
     shards.append(("outer", tier))
     shards.append(("grainsino", tier))
     shards.append(("pbpmask", tier))
+    shards.append(("pbporigins", tier))
     for c in range(4):
         shards.append(("grainsino_build", c, 4, tier))
     k = seed % len(shards)
@@ -680,6 +681,70 @@ def _run_pbpmask(desc):
     return sh
 
 
+def _run_pbporigins(desc):
+    """PBPRefine.get_origins (ray tracing of every peak's (omega, dty) through the map): for two point-like grains and a rotation axis off the
+    middle of the scan, every peak comes back with the lab x of ITS grain at ITS omega - the reported point is in the beam at the dty
+    the peak was measured at - whatever the order of the rows in the peak table (by dty up, by dty down, grain by grain, scrambled)"""
+    _, tier = desc
+    import types, io, contextlib
+    from ImageD11 import columnfile as cfm
+    from ImageD11.sinograms import geometry as G
+    from ImageD11.sinograms.point_by_point import PBPRefine
+    sh = Shard()
+    for ny, ystep, y0_off in ((41, 2.0, 3.3), (40, 1.0, -2.5)) if tier == "quick" else ((41, 2.0, 3.3), (40, 1.0, -2.5), (61, 0.5, 6.0)):
+        ymin = 100.0
+        ybincens = ymin + ystep * np.arange(ny)
+        y0 = ymin + ((ny - 1) / 2.0 + y0_off) * ystep
+        omega = np.arange(0.0, 180.0, 2.0) + 0.25
+        U2 = np.dot(O.rotation_from_axis_angle((0, 0, 1), 20.0), O.rotation_from_axis_angle((1, 0, 0), 36.87))
+        grains = [dict(step=(9, -6), U=np.eye(3), hkls=[(1, 0, 0), (0, 1, 0)]), dict(step=(-7, 4), U=U2, hkls=[(0, 0, 1)])]
+        rows = []
+        for gid, g in enumerate(grains):
+            sx, sy = G.step_to_sample(g["step"][0], g["step"][1], ystep)
+            dty = G.dty_values_grain_in_beam(sx, sy, y0, omega)
+            dty = G.dtyi_to_dty(G.dty_to_dtyi(dty, ystep, ymin), ystep, ymin)
+            if dty.min() < ybincens[0] or dty.max() > ybincens[-1]:
+                raise RuntimeError("grain leaves the scanned range")
+            lx, _ = G.sample_to_lab(sx, sy, y0, dty, omega)
+            for hkl in g["hkls"]:
+                gvec = np.dot(g["U"], hkl)
+                for k in range(len(omega)):
+                    rows.append((gvec[0], gvec[1], gvec[2], omega[k], dty[k], gid, lx[k]))
+        rows = np.array(rows)
+        n = len(rows)
+        orders = {"by dty upwards, then omega": np.lexsort((rows[:, 3], rows[:, 4])), "by dty downwards, then omega": np.lexsort((rows[:, 3], -rows[:, 4])),
+                  "grain by grain": np.arange(n), "scrambled": (np.arange(n) * 7919 + 5) % n if np.gcd(7919, n) == 1 else np.arange(n)[::-1]}
+        for oname, order in orders.items():
+            r = rows[order]
+            dset = types.SimpleNamespace(ybincens=ybincens, ystep=ystep, ymin=ymin, refmapfile=None, refpeaksfile=None, refoutfile=None, refmanfile=None)
+            with contextlib.redirect_stdout(io.StringIO()):
+                ref = PBPRefine(dset, "phase", y0=y0)
+                ij = np.array(G.step_grid_from_ybincens(ybincens, ystep, 1, y0))
+                ref.setmap(types.SimpleNamespace(i=ij[:, 0], j=ij[:, 1]))
+                shape = ref.sx_grid.shape
+                singlemap = np.full(shape + (3, 3), np.nan)
+                mask = np.zeros(shape, bool)
+                for g in grains:
+                    ri, rj = G.step_to_recon(g["step"][0], g["step"][1], shape)
+                    singlemap[ri, rj] = g["U"].T
+                    mask[ri, rj] = True
+                ref.singlemap, ref.mask = singlemap, mask
+                om = r[:, 3]
+                ref.icolf = cfm.colfile_from_dict(dict(gx=r[:, 0].copy(), gy=r[:, 1].copy(), gz=r[:, 2].copy(), omega=om.copy(), dty=r[:, 4].copy(),
+                                                       sinomega=np.sin(np.radians(om)), cosomega=np.cos(np.radians(om))))
+                ref.get_origins(guess_speed=False, save_peaks_after=False)
+            err = np.abs(np.asarray(ref.icolf.xpos_refined) - r[:, 6]) / ystep
+            case = {"kind": "pbporigins", "ny": ny, "ystep": ystep, "y0_steps_off_the_middle": y0_off, "row_order": oname}
+            if not (err <= 1.5).all():
+                sh.violation("PBPRefine.get_origins:origin-not-on-the-ray-of-the-peak's-own-omega-and-dty", case,
+                             {"peaks_off_by_more_than_1.5_steps": int((~(err <= 1.5)).sum()), "peaks": n, "worst_steps": float(np.nanmax(err))})
+            sh.evaluations += 1
+            sh.nontrivial += 1
+            sh.outcomes.add(("pbporigins", oname))
+    sh.sample(case, limit=1)
+    return sh
+
+
 def _run_grainsino_build(desc):
     """the whole GrainSinogram route on a synthetic point grain: 2-D peaks (g-vectors of 60 distinct hkl, one projection angle each, the
     peak of each projection split over the two dty bins around the value geometry says brings the grain into the beam) ->
@@ -780,6 +845,8 @@ def run_shard(desc):
         return _run_grainsino_build(desc)
     if desc[0] == "pbpmask":
         return _run_pbpmask(desc)
+    if desc[0] == "pbporigins":
+        return _run_pbporigins(desc)
     return {"conv": _run_conv, "recon": _run_recon, "linear": _run_linear, "orders": _run_orders, "filters": _run_filters,
             "grainsino": _run_grainsino}[desc[0]](desc)
 
@@ -794,6 +861,9 @@ def replay(case):
         pi = min(range(len(pos)), key=lambda k: abs(pos[k][0] * case["ystep"] - case["sx"]) + abs(pos[k][1] * case["ystep"] - case["sy"]))
         r = _run_recon(("recon", pi, "thorough"))
         r.violations = [v for v in r.violations if all(v["case"][k] == case[k] for k in ("ny", "y0", "range", "pad", "ystep"))]
+    elif kind == "pbporigins":
+        r = _run_pbporigins(("pbporigins", "thorough"))
+        r.violations = [v for v in r.violations if all(v["case"][k] == case[k] for k in ("ny", "ystep", "row_order"))]
     elif kind == "pbpmask":
         r = _run_pbpmask(("pbpmask", "thorough"))
         r.violations = [v for v in r.violations if all(v["case"][k] == case[k] for k in ("ny", "ystep", "y0_steps_off_the_middle"))]
